@@ -42,10 +42,11 @@ check_formula(const Plan& p, const Problem& pr, const RunCfg& rcg, const RunResu
           shared_ptr<target_type> cur(pr.start_image->get_empty_copy());
           std::copy(lam.begin(), lam.end(), cur->begin_all());
           shared_ptr<target_type> pg(pr.start_image->get_empty_copy());
-          QuadraticPrior<float> prior(false, (float)rcg.beta);
-          configure_prior(prior, pr, rcg);
-          prior.set_up(cur);
-          prior.compute_gradient(*pg, *cur);
+          shared_ptr<GeneralisedPrior<target_type>> prior = make_prior(pr, rcg);
+          prior->set_up(cur);
+          prior->compute_gradient(*pg, *cur);
+          if (rcg.rdp)
+            sim::probe("relative_difference_prior");
           std::vector<double> pgv(pg->begin_all(), pg->end_all());
           for (int v = 0; v < pr.nvox; ++v)
             {
